@@ -62,8 +62,30 @@ def history_run(ctx, name, n, threads, ops, big, race=False, what=""):
         return {"race": out[:6000], "summary": s, "trace": tr}
     if rc != 0 or s is None:
         raise common.Inconclusive("history recorder died (rc=%s): %s" % (rc, out[-2000:]))
-    ok, msg, r = ctx.validate_trace("TrackerTrace.tla", "TrackerTrace.cfg", tr, what=what or name)
-    return {"accepted": ok, "msg": msg, "summary": s, "trace": tr, "tlc_states": r.distinct}
+    # TLC cannot follow a behaviour of 65536 or more states (one state per event plus one per linearization point):
+    # the histories are independent of each other, so the trace is cut at its "reset" events into chunks of at most
+    # 12 000 events, validated side by side
+    from concurrent.futures import ThreadPoolExecutor
+    chunks, cur, n_ev = [], [], 0
+    for l in open(tr):
+        if '"reset"' in l and n_ev >= 12000:
+            chunks.append(cur)
+            cur, n_ev = [], 0
+        cur.append(l)
+        n_ev += 1
+    if cur:
+        chunks.append(cur)
+    files = []
+    for k, c in enumerate(chunks):
+        pth = os.path.join(d, "chunk%03d.ndjson" % k)
+        with open(pth, "w") as f:
+            f.writelines(c)
+        files.append(pth)
+    with ThreadPoolExecutor(max_workers=4) as ex:
+        outs = list(ex.map(lambda pth: ctx.validate_trace("TrackerTrace.tla", "TrackerTrace.cfg", pth, what=what or name), files))
+    bad = [(pth, msg) for pth, (ok, msg, r) in zip(files, outs) if not ok]
+    return {"accepted": not bad, "msg": bad[0][1] if bad else "", "summary": s, "trace": bad[0][0] if bad else tr,
+            "tlc_states": sum(r.distinct for _, _, r in outs), "chunks": len(files)}
 
 
 def run(ctx, prop="C12"):
